@@ -15,9 +15,9 @@ ID = "C17"
 LEVEL = "exploration"
 RULE = ("grammar of invalid values per parameter of every public method - identifiers {None, '', ' ', 'a b', 'a\\tb', "
         "'a\\n', '\\u2003x'}, algorithms {unsupported, '', ' ', 'sha 256'}, sizes {0, -1, '5', 5.0, True-like excluded}, "
-        "checksum without algorithm and the reverse, data {None, 5, b'bytes', '', '  ', missing path, text-mode "
-        "stream, list}, format_id {'  ', '\\t'}, object_metadata {None, dict, tuple}, unknown pids for retrieve / "
-        "delete / get_hex_digest / retrieve_metadata - one bad parameter with all others valid, then all pairs "
+        "checksum without algorithm and the reverse (None, '' and blank forms), data {None, 5, b'bytes', '', '  ', missing path, text-mode "
+        "stream, list}, format_id {'  ', '\\t'}, object_metadata {None, dict, tuple}, unknown pids (never seen, or with metadata but no object) for "
+        "retrieve / delete / get_hex_digest / retrieve_metadata - one bad parameter with all others valid, then all pairs "
         "of bad parameters, each issued from an empty store and from a populated store (objects shared by pids, "
         "metadata, an unreferenced object). Plus the successful read-only calls. Oracle: exception class in the "
         "documented set AND the snapshot (relative path -> size, sha256; directory set) identical before/after. "
@@ -48,17 +48,18 @@ def build_cases():
     filled in by the runner (they depend on scratch paths)."""
     P = {
         "store_object": {"pid": BAD_ID[1:], "data": ["@none", 5, b"bytes", "", "  ", "@missing", "@textstream", ["x"]],
-                         "additional_algorithm": BAD_ALGO, "checksum_pair": ["@sum_only", "@algo_only", "@algo_bad", "@sum_blank"],
+                         "additional_algorithm": BAD_ALGO, "checksum_pair": ["@sum_only", "@algo_only", "@algo_bad", "@sum_blank", "@sum_empty_only", "@algo_empty_only",
+                                           "@sum_empty_with_algo", "@sum_with_empty_algo"],
                          "expected_object_size": BAD_SIZE},
         "tag_object": {"pid": BAD_ID, "cid": BAD_ID},
         "delete_if_invalid_object": {"object_metadata": ["@none", {"cid": "x"}, ("a", "b")], "checksum": BAD_ID[:5],
                                      "checksum_algorithm": BAD_ALGO + [None], "expected_file_size": BAD_SIZE},
         "store_metadata": {"pid": BAD_ID, "metadata": ["@none", 5, b"bytes", "", "  ", "@missing"], "format_id": BAD_FMT},
-        "retrieve_object": {"pid": BAD_ID + ["@unknown"]},
+        "retrieve_object": {"pid": BAD_ID + ["@unknown", "@metaonly"]},
         "retrieve_metadata": {"pid": BAD_ID + ["@unknown"], "format_id": BAD_FMT + ["@unknownfmt"]},
-        "delete_object": {"pid": BAD_ID + ["@unknown"]},
+        "delete_object": {"pid": BAD_ID + ["@unknown", "@metaonly"]},
         "delete_metadata": {"pid": BAD_ID, "format_id": BAD_FMT},
-        "get_hex_digest": {"pid": BAD_ID + ["@unknown"], "algorithm": BAD_ALGO + [None]},
+        "get_hex_digest": {"pid": BAD_ID + ["@unknown", "@metaonly"], "algorithm": BAD_ALGO + [None]},
     }
     cases = []
     for m, params in P.items():
@@ -127,6 +128,14 @@ def run_shard(cases, sub_seed):
                         kw["checksum"], kw["checksum_algorithm"] = None, "md5"
                     elif v == "@algo_bad":
                         kw["checksum"], kw["checksum_algorithm"] = "abcd", "sha999"
+                    elif v == "@sum_empty_only":
+                        kw["checksum"], kw["checksum_algorithm"] = "", None
+                    elif v == "@algo_empty_only":
+                        kw["checksum"], kw["checksum_algorithm"] = None, ""
+                    elif v == "@sum_empty_with_algo":
+                        kw["checksum"], kw["checksum_algorithm"] = "", "md5"
+                    elif v == "@sum_with_empty_algo":
+                        kw["checksum"], kw["checksum_algorithm"] = "abcd", ""
                     else:
                         kw["checksum"], kw["checksum_algorithm"] = "  ", "md5"
                     continue
@@ -140,6 +149,9 @@ def run_shard(cases, sub_seed):
                 elif v == "@unknown":
                     v = "never.stored.pid"
                     expected = expected | UNKNOWN | ({"ValueError"})
+                elif v == "@metaonly":
+                    v = "nobj"          # a pid that has metadata documents but no object
+                    expected = expected | UNKNOWN
                 elif v == "@unknownfmt":
                     v = "no-such-format"
                 kw[name] = v
